@@ -212,6 +212,8 @@ pub fn run_c06(ctx: &Ctx) -> Report {
     if st.local.counters[0] == 0 || st.local.counters[1] == 0 || n_entries < 8000 {
         rep.engine_failures.push("vacuity guard: maximize never changed / always changed, or too few entries".into());
     }
+    run_unknown_domains(ctx, &u, Which::Max, "c06.unknown", &mut rep);
+    run_pair_histories(ctx, &u, Which::Max, "c06.history", true, &mut rep);
     super::conc::run_family(ctx, "maximize", "c06.schedule", &mut rep);
     rep.rule = "E4: all CLDR entries K->V, then every (language, script, region) of the universe of subtags occurring in likelySubtags.json plus unknown representatives and 'absent' — the complete product; each triple goes to likelysubtags::maximize and is compared with the dictionary reference (fallbacks named by C06 accepted as alternatives). Non-trivial = the reference finds an entry. Triples are pairwise distinct by construction.".into();
     rep.assumptions = vec!["data/likelySubtags.json is the CLDR source of truth".into(), "unknown subtags of one kind behave alike (binary-search miss)".into()];
@@ -534,6 +536,8 @@ pub fn run_c08(ctx: &Ctx) -> Report {
         super::history::fill_report(&mut rep, &sum, "C08: minimize as an action of the mutation histories");
         let _ = keep;
     }
+    run_unknown_domains(ctx, &u, Which::Min, "c08.unknown", &mut rep);
+    run_pair_histories(ctx, &u, Which::Min, "c08.history", !ctx.quick(), &mut rep);
     super::conc::run_family(ctx, "minimize", "c08.schedule", &mut rep);
     rep.rule = "E4: the complete product L x S x R through likelysubtags::minimize; the laws of C08 are evaluated on the library alone (using the library's own maximize), the chosen form is also compared with the dictionary reference; then the in-place APIs on a sub-universe x variants x extensions. 'minimize(maximize(x)) == minimize(x)' is read at function-return level (DESIGN §6.1). Non-trivial = minimize returns a form.".into();
     rep
@@ -576,5 +580,318 @@ pub fn replay(ctx: &Ctx, sub: &'static str, text: &str, coll: &Collector) {
             }
         }
         _ => {}
+    }
+}
+
+// ------------------------------------------------------------------------------------------
+// complete subtag domains: every well-formed subtag that the data do NOT know behaves like the
+// unknown representative (turns the assumption "unknown subtags behave alike" into a check)
+// ------------------------------------------------------------------------------------------
+
+#[derive(Clone, Copy, PartialEq, Eq, Debug)]
+pub enum Which {
+    Max,
+    Min,
+}
+
+fn apply(which: Which, method: bool, x: LTriple) -> Result<Option<LTriple>, String> {
+    guard_total(|| {
+        if !method {
+            return match which {
+                Which::Max => likelysubtags::maximize(x.0, x.1, x.2),
+                Which::Min => likelysubtags::minimize(x.0, x.1, x.2),
+            };
+        }
+        let mut li = LanguageIdentifier::from_parts(x.0, x.1, x.2, &[]);
+        let ch = match which {
+            Which::Max => li.maximize(),
+            Which::Min => li.minimize(),
+        };
+        if ch {
+            Some((li.language, li.script, li.region))
+        } else if (li.language, li.script, li.region) != x {
+            // "false" with a changed value: make it visible as a result that equals nothing
+            Some((li.language, li.script, li.region))
+        } else {
+            None
+        }
+    })
+}
+
+fn show_l(x: &LTriple) -> String {
+    Universe::show_lib(&Some(*x)).trim_start_matches("Some(").trim_end_matches(')').to_string()
+}
+
+const CTX_LANGS: [&str; 6] = ["", "en", "zh", "sr", "pa", "qqq"];
+const CTX_SCRIPTS: [&str; 6] = ["", "Latn", "Arab", "Hant", "Cyrl", "Qaaa"];
+const CTX_REGIONS: [&str; 7] = ["", "US", "TW", "RS", "PK", "001", "QQ"];
+
+fn p_lang(s: &str) -> Language {
+    if s.is_empty() { Language::default() } else { s.parse().expect("language") }
+}
+fn p_script(s: &str) -> Option<Script> {
+    if s.is_empty() { None } else { Some(s.parse().expect("script")) }
+}
+fn p_region(s: &str) -> Option<Region> {
+    if s.is_empty() { None } else { Some(s.parse().expect("region")) }
+}
+
+/// one candidate subtag of `kind` (0 language, 1 script, 2 region) in every context, against the
+/// unknown representative of the same kind and length in the same context
+pub fn check_unknown_one(u: &Universe, which: Which, sub: &'static str, kind: usize, cand: &str, l: &mut Local, coll: &Collector) {
+    let known = match kind {
+        0 => u.lk.langs[..u.lk.known.0].iter().any(|x| x == cand),
+        1 => u.lk.scripts[..u.lk.known.1].iter().any(|x| x == cand),
+        _ => u.lk.regions[..u.lk.known.2].iter().any(|x| x == cand),
+    };
+    // `und` is not an unknown language: it is the spelling of the absent one
+    if known || (kind == 0 && cand == "und") {
+        return;
+    }
+    let rep = match (kind, cand.len()) {
+        (0, 2) => "qq",
+        (0, 3) => "qqq",
+        (0, _) => "qqqqq",
+        (1, _) => "Qaaa",
+        (2, 2) => "QQ",
+        _ => "999",
+    };
+    if rep == cand {
+        return;
+    }
+    debug_assert!(!u.lk.langs[..u.lk.known.0].iter().any(|x| x == rep) && !u.lk.scripts[..u.lk.known.1].iter().any(|x| x == rep) && !u.lk.regions[..u.lk.known.2].iter().any(|x| x == rep));
+    l.nontrivial += 1;
+    let subst = |t: Option<LTriple>, from: &LTriple, to: &LTriple| -> Option<LTriple> {
+        // replace the representative by the candidate in the representative's result
+        t.map(|(a, b, c)| match kind {
+            0 => (if a == from.0 { to.0 } else { a }, b, c),
+            1 => (a, if b == from.1 { to.1 } else { b }, c),
+            _ => (a, b, if c == from.2 { to.2 } else { c }),
+        })
+    };
+    let (n1, n2) = match kind {
+        0 => (CTX_SCRIPTS.len(), CTX_REGIONS.len()),
+        1 => (CTX_LANGS.len(), CTX_REGIONS.len()),
+        _ => (CTX_LANGS.len(), CTX_SCRIPTS.len()),
+    };
+    for i in 0..n1 {
+        for j in 0..n2 {
+            let (xc, xr): (LTriple, LTriple) = match kind {
+                0 => ((p_lang(cand), p_script(CTX_SCRIPTS[i]), p_region(CTX_REGIONS[j])), (p_lang(rep), p_script(CTX_SCRIPTS[i]), p_region(CTX_REGIONS[j]))),
+                1 => ((p_lang(CTX_LANGS[i]), p_script(cand), p_region(CTX_REGIONS[j])), (p_lang(CTX_LANGS[i]), p_script(rep), p_region(CTX_REGIONS[j]))),
+                _ => ((p_lang(CTX_LANGS[i]), p_script(CTX_SCRIPTS[j]), p_region(cand)), (p_lang(CTX_LANGS[i]), p_script(CTX_SCRIPTS[j]), p_region(rep))),
+            };
+            for method in [false, true] {
+                let (rc, rr) = (apply(which, method, xc), apply(which, method, xr));
+                l.counters[3] += 1;
+                let want = rr.clone().map(|t| subst(t, &xr, &xc));
+                if rc != want {
+                    coll.push(l.order, Violation {
+                        sub,
+                        class: format!("{:?} ({}): a {} that the data do not know is treated differently from the unknown representative", which, if method { "method" } else { "free function" }, ["language", "script", "region"][kind]),
+                        case: Case::Text(format!("unk:{:?}:{}:{}:{}:{}", which, kind, cand, i, j)),
+                        expected: format!("{:?} (from {} -> {:?})", want.map(|o| o.map(|t| show_l(&t))), show_l(&xr), rr.map(|o| o.map(|t| show_l(&t)))),
+                        observed: format!("{} -> {:?}", show_l(&xc), rc.map(|o| o.map(|t| show_l(&t)))),
+                    });
+                }
+            }
+        }
+    }
+}
+
+fn nth_letters(mut k: u64, n: usize, upper_first: bool, upper_all: bool) -> String {
+    let mut b = vec![b'a'; n];
+    for i in (0..n).rev() {
+        b[i] = b'a' + (k % 26) as u8;
+        k /= 26;
+    }
+    let mut s = String::from_utf8(b).unwrap();
+    if upper_all {
+        s = s.to_ascii_uppercase();
+    } else if upper_first {
+        s = format!("{}{}", s[..1].to_ascii_uppercase(), &s[1..]);
+    }
+    s
+}
+
+/// every 2- and 3-letter language, every 4-letter script, every 2-letter and 3-digit region
+pub fn run_unknown_domains(ctx: &Ctx, u: &Universe, which: Which, sub: &'static str, rep: &mut Report) {
+    let coll = std::mem::take(&mut rep.collector);
+    let n_lang = 26u64 * 26 + 26 * 26 * 26;
+    let st = par_range(ctx, "E4.all_languages", n_lang, 256, &|idx, l| {
+        let s = if idx < 676 { nth_letters(idx, 2, false, false) } else { nth_letters(idx - 676, 3, false, false) };
+        check_unknown_one(u, which, sub, 0, &s, l, &coll);
+    });
+    rep.add_space("E4.all_languages", json!({"kind": "every 2- and 3-letter language subtag (18 252) that the CLDR data do not know x 6 scripts x 7 regions x {free function, method}: must behave like the unknown representative", "unknown_candidates": st.local.nontrivial}), &st);
+    // scripts: all 26^4 in the thorough tier; in the quick tier every script whose first letter
+    // is Q or Z (the private-use and special-purpose blocks) plus every 7th of the rest
+    let n_script = 26u64.pow(4);
+    let quick = ctx.quick();
+    let st = par_range(ctx, "E4.all_scripts", n_script, 1024, &|idx, l| {
+        let first = idx / 26u64.pow(3);
+        if quick && first != 16 && first != 25 && idx % 7 != 0 {
+            return;
+        }
+        check_unknown_one(u, which, sub, 1, &nth_letters(idx, 4, true, false), l, &coll);
+    });
+    rep.add_space("E4.all_scripts", json!({"kind": "every 4-letter script subtag that the CLDR data do not know [quick: the Q... and Z... blocks and every 7th of the rest] x 6 languages x 7 regions x {free function, method}", "unknown_candidates": st.local.nontrivial}), &st);
+    let n_region = 676u64 + 1000;
+    let st = par_range(ctx, "E4.all_regions", n_region, 64, &|idx, l| {
+        let s = if idx < 676 { nth_letters(idx, 2, false, true) } else { format!("{:03}", idx - 676) };
+        check_unknown_one(u, which, sub, 2, &s, l, &coll);
+    });
+    rep.add_space("E4.all_regions", json!({"kind": "every 2-letter and 3-digit region subtag (1 676) that the CLDR data do not know x 6 languages x 6 scripts x {free function, method}", "unknown_candidates": st.local.nontrivial}), &st);
+    rep.collector = coll;
+}
+
+pub fn replay_unknown(ctx: &Ctx, sub: &'static str, text: &str, coll: &Collector) {
+    // unk:<Max|Min>:<kind>:<cand>:<i>:<j>
+    let p: Vec<&str> = text.split(':').collect();
+    if p.len() != 6 {
+        return;
+    }
+    let which = if p[1] == "Max" { Which::Max } else { Which::Min };
+    let Ok(kind) = p[2].parse::<usize>() else { return };
+    let u = super::universe::shared(&ctx.repo);
+    let c2 = Collector::new();
+    let mut l = Local::new();
+    check_unknown_one(u, which, sub, kind, p[3], &mut l, &c2);
+    for (_, _, v) in c2.classes() {
+        coll.push(0, Violation { case: Case::Text(text.to_string()), ..v });
+    }
+}
+
+// ------------------------------------------------------------------------------------------
+// histories of two calls over the complete key set (state kept between calls)
+// ------------------------------------------------------------------------------------------
+
+/// For every ordered pair (x, y) of CLDR keys [quick tier of C08: y within +-16 rows of x in
+/// the table's integer order and in alphabetical order]: call f(x), then f(y) in the same thread,
+/// and compare f(y) with the dictionary reference.  Runs on ONE thread so that a global memo or
+/// search hint is in a defined state; the query functions keep no state today, so every pair
+/// agrees -- a "last hit" hint, a memo or a scratch buffer shows up as a pair (x, y) whose second
+/// answer depends on the first call.
+pub fn run_pair_histories(ctx: &Ctx, u: &Universe, which: Which, sub: &'static str, all_pairs: bool, rep: &mut Report) {
+    let t0 = std::time::Instant::now();
+    let mut keys: Vec<(Triple, LTriple, Option<LTriple>)> = vec![];
+    for (k, _) in &u.lk.entries {
+        if k == "und" {
+            continue;
+        }
+        let Some(t) = u.lk.ids_of(k) else { continue };
+        let t = match which {
+            Which::Max => t,
+            // minimize is exercised on the maximized forms (the values) and on the keys
+            Which::Min => t,
+        };
+        let exp = match which {
+            Which::Max => u.lk.ref_maximize(t).map(|e| u.lib(e)),
+            Which::Min => u.lk.ref_minimize(t).map(|e| u.lib(e)),
+        };
+        keys.push((t, u.lib(t), exp));
+    }
+    if which == Which::Min {
+        let mut seen: std::collections::HashSet<Triple> = keys.iter().map(|k| k.0).collect();
+        for (_, v) in &u.lk.entries {
+            if let Some(t) = u.lk.ids_of(v) {
+                if seen.insert(t) {
+                    keys.push((t, u.lib(t), u.lk.ref_minimize(t).map(|e| u.lib(e))));
+                }
+            }
+        }
+    }
+    // orders for the neighbourhood variant: integer order of (lang, script, region) as the
+    // tables use it, and the alphabetical order of the key text
+    let raw = |x: &LTriple| -> (u64, u32, u32) {
+        (Into::<Option<u64>>::into(x.0).unwrap_or(0), x.1.map(|s| s.into()).unwrap_or(0u32), x.2.map(|r| r.into()).unwrap_or(0u32))
+    };
+    let n = keys.len();
+    let mut by_int: Vec<usize> = (0..n).collect();
+    by_int.sort_by_key(|&i| raw(&keys[i].1));
+    let mut by_text: Vec<usize> = (0..n).collect();
+    by_text.sort_by_key(|&i| u.lk.show(keys[i].0));
+    let coll = std::mem::take(&mut rep.collector);
+    let mut pairs = 0u64;
+    let mut bad = 0u64;
+    let call = |x: &LTriple| -> Option<LTriple> {
+        match which {
+            Which::Max => likelysubtags::maximize(x.0, x.1, x.2),
+            Which::Min => likelysubtags::minimize(x.0, x.1, x.2),
+        }
+    };
+    let mut check = |i: usize, j: usize, pairs: &mut u64, bad: &mut u64| {
+        *pairs += 1;
+        let _ = call(&keys[i].1);
+        let got = call(&keys[j].1);
+        if got != keys[j].2 && *bad < 10_000 {
+            *bad += 1;
+            coll.push(*pairs, Violation {
+                sub,
+                class: format!("{:?}: the answer for a key depends on the call made before it (state kept between calls)", which),
+                case: Case::Text(format!("hist:{:?}:{}|{}", which, u.lk.show(keys[i].0), u.lk.show(keys[j].0))),
+                expected: Universe::show_lib(&keys[j].2),
+                observed: Universe::show_lib(&got),
+            });
+        }
+    };
+    let r = guard_total(|| {
+        if all_pairs {
+            for i in 0..n {
+                if i % 256 == 0 && past_deadline() {
+                    break;
+                }
+                for j in 0..n {
+                    check(i, j, &mut pairs, &mut bad);
+                }
+            }
+        } else {
+            for order in [&by_int, &by_text] {
+                for (p, &i) in order.iter().enumerate() {
+                    let lo = p.saturating_sub(16);
+                    let hi = (p + 17).min(n);
+                    for q in lo..hi {
+                        check(i, order[q], &mut pairs, &mut bad);
+                    }
+                }
+            }
+        }
+    });
+    if let Err(p) = r {
+        coll.push(0, Violation { sub, class: format!("{:?} panics in a two-call history", which), case: Case::Text("hist:panic".into()), expected: "a value".into(), observed: p });
+    }
+    rep.collector = coll;
+    rep.states += pairs;
+    rep.transitions += pairs * 2;
+    rep.evaluations += pairs;
+    rep.traces += pairs;
+    let e = rep.extra.entry("engines".to_string()).or_insert_with(|| json!({}));
+    e["E3.key_pairs"] = json!({
+        "space": {"kind": if all_pairs { "every ordered pair (x, y) of the keys: f(x) then f(y) on one thread, f(y) compared with the dictionary reference" } else { "ordered pairs (x, y) with y within +-16 rows of x in the tables' integer order and in alphabetical order (all pairs in the thorough tier)" },
+                  "keys": n, "pairs": pairs},
+        "inputs": pairs, "wall_s": (t0.elapsed().as_secs_f64() * 100.0).round() / 100.0,
+    });
+}
+
+pub fn replay_hist(ctx: &Ctx, sub: &'static str, text: &str, coll: &Collector) {
+    // hist:<Max|Min>:<x>|<y>
+    let Some(rest) = text.strip_prefix("hist:") else { return };
+    let Some((w, xy)) = rest.split_once(':') else { return };
+    let Some((x, y)) = xy.split_once('|') else { return };
+    let which = if w == "Max" { Which::Max } else { Which::Min };
+    let u = super::universe::shared(&ctx.repo);
+    let (Some(tx), Some(ty)) = (u.lk.ids_of(x), u.lk.ids_of(y)) else { return };
+    let (lx, ly) = (u.lib(tx), u.lib(ty));
+    let exp = match which {
+        Which::Max => u.lk.ref_maximize(ty).map(|e| u.lib(e)),
+        Which::Min => u.lk.ref_minimize(ty).map(|e| u.lib(e)),
+    };
+    let call = |x: &LTriple| match which {
+        Which::Max => likelysubtags::maximize(x.0, x.1, x.2),
+        Which::Min => likelysubtags::minimize(x.0, x.1, x.2),
+    };
+    let _ = call(&lx);
+    let got = call(&ly);
+    if got != exp {
+        coll.push(0, Violation { sub, class: "history".into(), case: Case::Text(text.to_string()), expected: Universe::show_lib(&exp), observed: Universe::show_lib(&got) });
     }
 }
